@@ -32,6 +32,7 @@ type hsRun struct {
 	ackIDs []string
 	cells  map[uint64]bool
 	nprobe int
+	sizes  []int // payload sizes of the messages published to the fixture topic
 }
 
 func (r *hsRun) ev(f string, a ...any) { r.trace = append(r.trace, fmt.Sprintf(f, a...)) }
@@ -394,6 +395,11 @@ func (r *hsRun) probe() *Violation {
 	}
 	if _, err := r.w.Call(ctx, "Publish", &pubsubpb.PublishRequest{Topic: hsTopic, Messages: []*pubsubpb.PubsubMessage{{Data: data, Attributes: map[string]string{"kind": "a"}}}}); err != nil && code(err) != codes.NotFound {
 		return viol("C16", "wedged", "Publish to fixture topic failed: %v", err)
+	} else if err == nil {
+		r.sizes = append(r.sizes, len(data))
+		if len(r.sizes) > 6 {
+			r.sizes = r.sizes[len(r.sizes)-6:]
+		}
 	}
 	if len(r.ackIDs) > 40 {
 		r.ackIDs = r.ackIDs[len(r.ackIDs)-40:]
@@ -413,6 +419,15 @@ func fieldSig(m proto.Message) string {
 func (r *hsRun) streamFrames() []*pubsubpb.StreamingPullRequest {
 	t := r.t
 	first := &pubsubpb.StreamingPullRequest{Subscription: r.nameOf("subscriptions"), StreamAckDeadlineSeconds: r.i32(), MaxOutstandingMessages: []int64{math.MinInt64, -1, 0, 1, 3, math.MaxInt64}[t.Intn(6)], MaxOutstandingBytes: []int64{math.MinInt64, -1, 0, 1, 100, math.MaxInt64}[t.Intn(6)], ClientId: "h"}
+	if len(r.sizes) > 0 && t.Bool(35) {
+		// a byte window that the queued fixture messages fill exactly (boundary of the window)
+		first.Subscription = hsSub
+		first.MaxOutstandingMessages = []int64{2, 3, 10}[t.Intn(3)]
+		first.MaxOutstandingBytes = int64(r.sizes[t.Intn(len(r.sizes))])
+		if t.Bool(50) {
+			first.MaxOutstandingBytes += int64(r.sizes[t.Intn(len(r.sizes))])
+		}
+	}
 	if t.Bool(30) {
 		first.AckIds = r.ackList()
 	}
